@@ -189,7 +189,7 @@ def check_property_file(prop):
     # property files contain only statements closed by `exact`
     for m in re.finditer(r"Proof\.(.*?)Qed\.", src, re.S):
         body = m.group(1).strip()
-        if not re.fullmatch(r"exact\s+[^.]+\.|exact\s+\(.*\)\.", body, re.S):
+        if not re.fullmatch(r"exact\s+[\w.']+\s*\.|exact\s+\(.*\)\s*\.", body, re.S):
             problems.append("proof in property file is not a single `exact`: %r" % body[:60])
     with Lock("coq"):
         rc, out = sh(["coqc", "-q", "-Q", ".", "GS", "-w",
@@ -364,6 +364,14 @@ class Check:
         broken-obligation note (the caller then searches for a failing input)."""
         errs = regen()
         broken = []
+        if not os.path.exists(os.path.join(COQ, "Properties", self.prop + ".v")):
+            self.coq = {"obligations": 0, "discharged": 0, "theorems": []}
+            self.coverage["obligations"] = 0
+            self.coverage["discharged"] = 0
+            self.coverage["checker_cmd"] = "none"
+            self.broken = ["no Properties/%s.v yet" % self.prop]
+            self.log("BROKEN OBLIGATION: no property file")
+            return False
         for k, v in errs.items():
             broken.append("translator %s: %s" % (k, v))
         targets = ["Properties/%s.vo" % self.prop] + list(extra_targets)
